@@ -1038,6 +1038,30 @@ struct UnitAvoidance<CommonUnit<Us...>> : std::integral_constant<int, 6> {};
 
 template <typename... Us>
 struct UnitAvoidance<CommonPointUnit<Us...>> : std::integral_constant<int, 7> {};
+
+// A last-resort tiebreaker for distinct named units which every other criterion considers equal
+// (same dimension, magnitude, and origin; for example, `Hertz` and `Becquerel`).  Specializing this
+// for one unit of such a pair makes the ordering strict again, without affecting the position of
+// either unit relative to any other unit.
+template <typename T>
+struct UnitOrderTiebreaker : std::integral_constant<int, 0> {};
+
+// Prefixed, scaled, and exponentiated versions of a unit inherit its tiebreaker.
+template <template <class> class Prefix, typename U>
+struct UnitOrderTiebreaker<Prefix<U>> : UnitOrderTiebreaker<U> {};
+
+template <typename U, typename ScaleFactor>
+struct UnitOrderTiebreaker<ScaledUnit<U, ScaleFactor>> : UnitOrderTiebreaker<U> {};
+
+template <typename B, std::intmax_t N>
+struct UnitOrderTiebreaker<Pow<B, N>> : UnitOrderTiebreaker<B> {};
+
+template <typename B, std::intmax_t N, std::intmax_t D>
+struct UnitOrderTiebreaker<RatioPow<B, N, D>> : UnitOrderTiebreaker<B> {};
+
+template <typename A, typename B>
+struct OrderByUnitOrderTiebreaker
+    : stdx::bool_constant<(UnitOrderTiebreaker<A>::value < UnitOrderTiebreaker<B>::value)> {};
 }  // namespace detail
 
 template <typename A, typename B>
@@ -1048,6 +1072,8 @@ struct InOrderFor<UnitProduct, A, B> : LexicographicTotalOrdering<A,
                                                                   detail::OrderByMag,
                                                                   detail::OrderByScaleFactor,
                                                                   detail::OrderByOrigin,
-                                                                  detail::OrderAsUnitProduct> {};
+                                                                  detail::OrderAsUnitProduct,
+                                                                  detail::OrderByUnitOrderTiebreaker> {
+};
 
 }  // namespace au
